@@ -123,6 +123,26 @@ Proof. intros HR Hso. change (CFConfigMoves_is_non_negative vt q dd so) with
 Lemma nonneg_off_vtilde D : nonneg_off g q D = forallb (fun v => 0 <=? nthZ D v) (vtilde g q).
 Proof. unfold nonneg_off, vtilde. induction (Vg g) as [|x L IH]; [reflexivity|]. cbn [forallb filter]. rewrite IH.
   destruct (Nat.eqb x q); cbn [negb orb forallb]; reflexivity. Qed.
+(* get_config_degrees_as_dict, get_q_vertex_name, get_v_tilde_names (translated from the current source): the dictionary {v: D(v) for v in V - {q}} - exactly one entry per
+   vertex other than q, none for q, never refused - in whatever order the set is iterated; the other two return q and the set V - {q} themselves *)
+Lemma s_mem_perm' v l l' : Permutation l l' -> s_mem v l = s_mem v l'.
+Proof. intros H. apply Bool.eq_true_iff_eq. rewrite !s_mem_In. split; apply Permutation_in; [exact H|apply Permutation_sym; exact H]. Qed.
+Definition asdict_body (dd : list (nat * Z)) (acc_ : pyres unit (list (nat * Z))) (v : nat) : pyres unit (list (nat * Z)) :=
+  match acc_ with PyExn e_ => PyExn e_ | PyOk d_ =>
+  match CFConfigMoves_get_degree_at q vt dd v with PyExn _ => PyExn tt | PyOk t1_ => PyOk (d_set v t1_ d_) end end.
+Lemma asdict_loop dd D : rep_div n dd D -> forall L, (forall v, In v L -> s_mem v vt = true) -> forall acc,
+  exists r, fold_left (asdict_body dd) L (PyOk acc) = PyOk r /\ forall u, d_find u r = if s_mem u L then Some (nthZ D u) else d_find u acc.
+Proof. intros HR. induction L as [|x L IH]; intros Hin acc; [exists acc; split; [reflexivity|intros u; reflexivity]|]. cbn [fold_left]. unfold asdict_body at 2.
+  rewrite (config_get_degree_at_refines dd D x HR). pose proof (Hin x (or_introl eq_refl)) as Hx. rewrite (Hvt x) in Hx. unfold inb. rewrite Hx.
+  destruct (IH (fun v Hv => Hin v (or_intror Hv)) (d_set x (nthZ D x) acc)) as (r & E & F). exists r. split; [exact E|]. intros u. rewrite (F u). unfold s_mem. cbn [existsb]. fold (s_mem u L).
+  destruct (s_mem u L); [rewrite orb_true_r; reflexivity|]. rewrite orb_false_r, d_find_set. destruct (Nat.eqb_spec u x) as [->|P]; reflexivity. Qed.
+Theorem config_as_dict_refines dd D so : rep_div n dd D -> (forall l, Permutation (so l) l) ->
+  exists r, CFConfigMoves_get_config_degrees_as_dict vt q dd so = PyOk r /\ forall u, d_find u r = if inb g u && negb (Nat.eqb u q) then Some (nthZ D u) else None.
+Proof. intros HR Hso. unfold CFConfigMoves_get_config_degrees_as_dict. fold (asdict_body dd).
+  destruct (asdict_loop dd D HR (so vt) (fun v Hv => proj2 (s_mem_In v vt) (Permutation_in _ (Hso vt) Hv)) []) as (r & E & F). unfold dictZ in *. rewrite E. exists r. split; [reflexivity|].
+  intros u. rewrite (F u), (s_mem_perm' u _ _ (Hso vt)), (Hvt u). unfold inb. reflexivity. Qed.
+Theorem config_name_readers_refine : CFConfigMoves_get_q_vertex_name q = q /\ CFConfigMoves_get_v_tilde_names vt = vt.
+Proof. split; reflexivity. Qed.
 End CR.
 (* the hypotheses are met: V - {q} itself represents V - {q} *)
 Lemma rep_vtilde_of g q : rep_vtilde (nv g) q (vtilde g q) /\ NoDup (vtilde g q).
